@@ -5,7 +5,7 @@
       palette length; palette hash; screen length; screen hash; screen hash after the probe pixels; screen length; screen hash
       after bar(0,0,1295,7)]      |  [-1; site] on Panic  |  [-2] when an unmodelled command is reached *)
 From Coq Require Import NArith ZArith List Bool Uint63.
-From IE Require Import Gen.RipGen Gen.RipLineGen Model.RipTok Model.BgiKernel Model.RipStream Model.BgiLine Model.RipStream2.
+From IE Require Import Gen.RipGen Gen.RipLineGen Model.RipTok Model.BgiKernel Model.RipStream Model.BgiLine Model.RipStream2 Gen.IgsGen Model.IgsTok Model.IgsKernel.
 Import ListNotations.
 Local Open Scope Z_scope.
 
@@ -92,4 +92,43 @@ Definition run_line (vx0 vy0 vx1 vy1 style user_pat thick wm kind : Z) (coords :
   match r with
   | Panic p => [-1; Z.of_N p]
   | Ok s => [Z.of_nat (length (screen (lb s))); hash (screen (lb s)); Z.of_nat (length (filter (fun p => negb (p =? 0)%N) (screen (lb s))))]
+  end.
+
+(* ---- extension: IGS tokenizer + pixel kernel ----
+   run_igs cs : the stream fed to a fresh igs::Parser + DrawExecutor (Model/IgsTok.v with exec = IgsKernel.igs_x, a fallback parser
+   that accepts every character), with the protocol of harness `igsobs`: after every character at most 64 get_next_action
+   calls, stopping at the first None.
+     [err count; loop steps; width; height; picture length; picture hash] | [-1; site] on Panic | [-2] when a command outside the kernel ran *)
+Definition igs_fb (u : unit) (_ : N) : unit * bool := (u, true).
+
+Fixpoint igs_drain (k : nat) (w : iworld xstate unit) (steps : N) : res (iworld xstate unit * N) :=
+  match k with
+  | O => Ok (w, steps)
+  | S k' => r <- igs_next_action xstate igs_x unit w ;;
+            let '(w', some) := r in if some then igs_drain k' w' (N.succ steps) else Ok (w', steps)
+  end.
+
+Fixpoint igs_feed (cs : list N) (w : iworld xstate unit) (errs steps : N) : res (iworld xstate unit * N * N) :=
+  match cs with
+  | [] => Ok (w, errs, steps)
+  | c :: t => r <- igs_step xstate igs_x unit igs_fb w c ;;
+              let '(w1, ok) := r in
+              d <- igs_drain 64 w1 steps ;;
+              let '(w2, steps') := d in igs_feed t w2 (if ok then errs else N.succ errs) steps'
+  end.
+
+Definition igs_world0 : iworld xstate unit := {| w_p := ipars_new; w_x := SOkE iexec_new; w_fb := tt |}.
+
+Definition run_igs (cs : list N) : list Z :=
+  match igs_feed cs igs_world0 0%N 0%N with
+  | Panic p => [-1; Z.of_N p]
+  | Ok (w, errs, steps) =>
+    match w_x xstate unit w with
+    | SPanicE p => [-1; Z.of_N p]
+    | SUnmodelledE => [-2]
+    | SOkE e => match igs_picture e with
+                | Panic p => [-1; Z.of_N p]
+                | Ok px => [Z.of_N errs; Z.of_N steps; e_w e; e_h e; Z.of_nat (length px); hash px]
+                end
+    end
   end.
